@@ -124,11 +124,16 @@ def d_archives(ctx):
     orig_seq = ae._process_7z_files_sequential
 
     def spy_read(self, name, *a, **k):
-        reads.append(name.filename if hasattr(name, "filename") else name)
+        # identify the member actually read by its position in the central directory (names may repeat)
+        info = name if isinstance(name, zipfile.ZipInfo) else self.getinfo(name)
+        idx = [i for i, x in enumerate(self.infolist()) if x is info]
+        reads.append(idx[0] if idx else -1)
         return orig_read(self, name, *a, **k)
 
     def spy_extractfile(self, member):
-        reads.append(member.name if hasattr(member, "name") else member)
+        m = member if isinstance(member, tarfile.TarInfo) else self.getmember(member)
+        idx = [i for i, x in enumerate(self.getmembers()) if x is m]
+        reads.append(idx[0] if idx else -1)
         return orig_extractfile(self, member)
 
     def spy_seq(files_to_process, temp_dir, archive_path):
@@ -141,24 +146,39 @@ def d_archives(ctx):
     tarfile.TarFile.extractfile = spy_extractfile
     ae._process_7z_files_sequential = spy_seq
     try:
-        for it in range(ctx.n(60, 600)):
-            n = rng.randint(0, 6)
-            members = []
+        # scripted scenarios first: same-name members on both sides of the limit, in both orders
+        scripted = []
+        for fmt0 in ("zip", "zip-stored", "tar", "tar.gz"):
+            for a, b in ((LIMIT - 4, LIMIT * 3), (LIMIT * 3, LIMIT - 4), (LIMIT, LIMIT + 1), (LIMIT + 1, LIMIT)):
+                scripted.append((fmt0, [(0, "same.txt", "txt", a), (1, "same.txt", "txt", b), (2, "other.txt", "txt", 5)]))
+                scripted.append((fmt0, [(0, "x.txt", "txt", 7), (1, "d/same.md", "md", a), (2, "d/same.md", "md", b)]))
+        n_random = ctx.n(60, 600)
+        for it in range(len(scripted) + n_random):
+            n = rng.randint(0, 6) if it >= len(scripted) else 0
+            members = [] if it >= len(scripted) else list(scripted[it][1])
             for i in range(n):
                 kind = rng.choice(["txt", "txt", "txt", "dir", "hidden", "unsupported", "md"])
                 size = rng.choice([0, 1, LIMIT - 1, LIMIT, LIMIT + 1, LIMIT * 3, rng.randint(0, 200)])
                 name = {"txt": f"f{i}.txt", "md": f"d/g{i}.md", "dir": f"dir{i}/", "hidden": f".h{i}.txt",
                         "unsupported": f"u{i}.bin"}[kind]
+                if (members and kind in ("txt", "md") and members[-1][2] in ("txt", "md") and rng.random() < 0.25
+                        and size > 0 and members[-1][3] > 0):
+                    name = members[-1][1]          # duplicate member name (legal in zip and tar); both non-empty so
+                                                   # that the content token identifies which one produced a result
                 members.append((i, name, kind, size))
-            fmt = rng.choice(["zip", "zip-stored", "tar", "tar.gz", "7z", "7z-solid"])
-            names_files = [(nm, k, (b"%d " % i) * ((sz // len(b"%d " % i)) + 1)) for i, nm, k, sz in members]
-            data_of = {nm: blob[:sz] for (i, nm, k, sz), (_, _, blob) in zip(members, names_files)}
+            fmt = rng.choice(["zip", "zip-stored", "tar", "tar.gz", "7z", "7z-solid"]) if it >= len(scripted) else scripted[it][0]
+            if fmt.startswith("7z") and len({nm for _, nm, _, _ in members}) < len(members):
+                members = [(i, (nm if k == "dir" else f"u{i}_" + nm), k, sz) for i, nm, k, sz in members]  # 7z: keep names unique
+            data_of = {}
+            for i, nm, k, sz in members:
+                tok = b"%d " % i
+                data_of[i] = (tok * ((max(sz, len(tok)) // len(tok)) + 1))[:max(sz, len(tok))] if sz > 0 else b""
             del reads[:], writes[:]
             buf = io.BytesIO()
             if fmt.startswith("zip"):
                 with zipfile.ZipFile(buf, "w", zipfile.ZIP_STORED if fmt == "zip-stored" else zipfile.ZIP_DEFLATED) as zf:
                     for i, nm, k, sz in members:
-                        zf.writestr(nm, b"" if k == "dir" else data_of[nm])
+                        zf.writestr(nm, b"" if k == "dir" else data_of[i])
                 path = "a.zip"
             elif fmt.startswith("tar"):
                 with tarfile.open(fileobj=buf, mode="w:gz" if fmt == "tar.gz" else "w") as tf:
@@ -168,12 +188,12 @@ def d_archives(ctx):
                             ti.type = tarfile.DIRTYPE
                             tf.addfile(ti)
                         else:
-                            ti.size = len(data_of[nm])
-                            tf.addfile(ti, io.BytesIO(data_of[nm]))
+                            ti.size = len(data_of[i])
+                            tf.addfile(ti, io.BytesIO(data_of[i]))
                 path = "a.tar.gz" if fmt == "tar.gz" else "a.tar"
             else:
                 buf = io.BytesIO(sevenz_min.write_7z(
-                    [(nm.rstrip("/"), None if k == "dir" else data_of[nm]) for i, nm, k, sz in members],
+                    [(nm.rstrip("/"), None if k == "dir" else data_of[i]) for i, nm, k, sz in members],
                     solid=(fmt == "7z-solid")))
                 path = "a.7z"
             try:
@@ -181,39 +201,44 @@ def d_archives(ctx):
                 err = None
             except Exception as e:  # noqa
                 results, err = [], repr(e)
-            processed = [r.get_metadata().filename for r in results]
             id_of = {nm.rstrip("/"): i for i, nm, k, sz in members}
             base_to_id = {os.path.basename(nm.rstrip("/")): i for i, nm, k, sz in members}
+
+            def result_id(r):
+                txt = r.get_full_text().split()
+                if txt and txt[0].isdigit():
+                    return int(txt[0])          # the content names the member it came from
+                return base_to_id.get(r.get_metadata().filename, 999)
+            pr_ids = [result_id(r) for r in results]
             mem_terms = []
             for i, nm, k, sz in members:
                 regular = k != "dir"
                 skip = ae._should_skip_file(nm, os.path.basename(nm)) if regular else False
-                real_size = len(data_of[nm]) if regular else 0
+                real_size = len(data_of[i]) if regular else 0
                 mem_terms.append(f"({i}%nat, {real_size}, {'true' if regular else 'false'}, {'true' if skip else 'false'})")
-            nontriv = any(len(data_of[nm]) > LIMIT for i, nm, k, sz in members if k != "dir")
+            nontriv = any(len(data_of[i]) > LIMIT for i, nm, k, sz in members if k != "dir")
             ctx.case((fmt, tuple(members)), nontriv, kind=f"archive:{fmt}")
             natl = lambda l: "[" + ";".join(f"{x}%nat" for x in l) + "]"
-            pr_ids = [base_to_id.get(p, 999) for p in processed]
             if fmt.startswith("7z"):
                 # 7z with empty files: members with no data have no stream -> not written by extractall
                 wr_ids = sorted(id_of.get(w, 999) for w in writes)
                 scases.append(f"({LIMIT}, [{';'.join(mem_terms)}], {natl(wr_ids)}, {natl(pr_ids)})")
                 sinfo.append((fmt, members, wr_ids, pr_ids, err))
                 for i, nm, k, sz in members:
-                    if k != "dir" and len(data_of[nm]) > LIMIT and i in wr_ids:
+                    if k != "dir" and len(data_of[i]) > LIMIT and i in wr_ids:
                         ctx.finding("7z-oversize-member-decompressed-and-written",
-                                    f"7z member {nm} ({len(data_of[nm])} B > per-member limit {LIMIT} B) was decompressed and "
+                                    f"7z member {nm} ({len(data_of[i])} B > per-member limit {LIMIT} B) was decompressed and "
                                     f"written to the temporary directory by extractall()",
                                     {"format": fmt, "members": members, "limit": LIMIT, "archive": buf.getvalue()})
-                    if k != "dir" and len(data_of[nm]) > LIMIT and i in pr_ids:
+                    if k != "dir" and len(data_of[i]) > LIMIT and i in pr_ids:
                         ctx.finding(f"oversize-member-processed:{fmt}", f"oversize member {nm} produced a result",
                                     {"format": fmt, "members": members, "archive": buf.getvalue()})
             else:
-                rd_ids = [id_of.get(r.rstrip("/"), 999) for r in reads]
+                rd_ids = list(reads)
                 zcases.append(f"({LIMIT}, [{';'.join(mem_terms)}], {natl(rd_ids)}, {natl(pr_ids)})")
                 zinfo.append((fmt, members, rd_ids, pr_ids, err))
                 for i, nm, k, sz in members:
-                    if k != "dir" and len(data_of[nm]) > LIMIT and (i in rd_ids or i in pr_ids):
+                    if k != "dir" and len(data_of[i]) > LIMIT and (i in rd_ids or i in pr_ids):
                         ctx.finding(f"oversize-member-read:{fmt}", f"{fmt} member {nm} above the limit was decompressed/processed",
                                     {"format": fmt, "members": members, "archive": buf.getvalue()})
     finally:
